@@ -126,6 +126,53 @@ func c05Send(c *cx) {
 		}
 	}
 	c.r.Floor(id, "success returns of send", n, 1)
+	// C05.9 failure atomicity: encoding/xml cannot take back a start tag that
+	// has been encoded. An error return that is reachable after the start
+	// token was written leaves a half-open element in the shared encoder, and
+	// the next successful call is emitted INSIDE it; the only sound reactions
+	// are to finish or to poison the output (mark it closed) before returning.
+	{
+		poison := func(q eng.Point, nd ast.Node) bool {
+			if f.ContainsCall(nd, "xmpp.Session.closeSession") != nil || f.ContainsCall(nd, "xmpp.Session.Close") != nil {
+				return true
+			}
+			for _, w := range f.FieldWrites("xmpp.Session.state") {
+				if w.Stmt == nd {
+					return true
+				}
+			}
+			return false
+		}
+		bad := ""
+		for _, b := range g.Blocks {
+			if !b.Live {
+				continue
+			}
+			for j, nd := range b.Nodes {
+				q := eng.Point{B: int(b.Index), I: j}
+				if !steps[0].m(q, nd) {
+					continue
+				}
+				for _, rs := range g.Returns {
+					if g.RetKindOf(rs) == eng.RetSuccess {
+						continue
+					}
+					rp, _ := g.Where(rs)
+					// the error of the start-token write itself does not count:
+					// nothing usable was written (skip returns dominated by it)
+					if g.Reachable(g.After(q), rp, nil, poison) {
+						// is this the immediate failure of the start write?
+						cn := f.Norm(ast.Unparen(nd.(*ast.AssignStmt).Rhs[0]), &q)
+						if ok, _ := g.Dominated(rp, "!eq("+cn+",nil)"); ok && !g.Reachable(g.After(q), rp, nil, steps[1].m) {
+							continue
+						}
+						bad = "error return at " + c.p.Pos(rs.Pos()) + " after the start tag was written, without closing or finishing the element"
+					}
+				}
+			}
+		}
+		c.r.Check("C05.9", f, "failure after the start tag poisons the output", "S: an error return that is reachable after the start token was encoded marks the output stream unusable (otherwise the next successful call is emitted inside the half-open element)", f.Pos(), bad == "", bad)
+	}
 	// start == nil: first token must be a start element (comma-ok) and the rest is limited to its element
 	for _, w := range f.Writes() {
 		if v := rootLocal(f, w.LHS); v != nil && w.RHS != nil {
@@ -298,13 +345,51 @@ func c05StanzaEncoder(c *cx) {
 			}
 			n++
 			c.dom(id, f, w.Stmt, fl.v+" = true", []string{"!eq(rangeval(*.Attr).Value,\"\")", "eq(rangeval(*.Attr).Name.Local,\"" + fl.attr + "\")"})
+			// ... and only for the stanza's own (unqualified) attribute: xml:id
+			// or foo:from must not stand in for it
+			c.domAny(id, f, w.Stmt, fl.v+" = true [unqualified attribute]", []string{"eq(rangeval(*.Attr).Name.Space,\"\")", "eq(rangeval(*.Attr).Name,encoding/xml.Name{Local:\"" + fl.attr + "\"})", "eq(encoding/xml.Name{Local:\"" + fl.attr + "\"},rangeval(*.Attr).Name)"})
 		}
 		c.r.Floor(id, fl.v+" = true", n, 1)
+	}
+	// the stanza goes out in the stream's content namespace: on every path of
+	// the top-level stanza arm the name's Space is set to recv.ns or known to
+	// equal it (an element in the OTHER stanza namespace is not left as it is)
+	{
+		isNS := func(q eng.Point, nd ast.Node) bool {
+			for _, w := range f.Writes() {
+				if w.Stmt == nd {
+					if sel, ok := ast.Unparen(w.LHS).(*ast.SelectorExpr); ok && sel.Sel.Name == "Space" && w.RHS != nil && f.Norm(w.RHS, nil) == "recv.ns" {
+						return true
+					}
+				}
+			}
+			return false
+		}
+		cut := eng.Cut{}
+		for _, ce := range g.EdgesMatching("eq(*.Name.Space,recv.ns)") {
+			cut[ce.E] = true
+		}
+		bad := ""
+		n := 0
+		for _, ce := range g.EdgesMatching("xmpp.isStanzaEmptySpace(*.Name)") {
+			src := eng.Point{B: ce.E.B, I: 0}
+			if ok, _ := g.Dominated(src, "istype(*;encoding/xml.StartElement)"); !ok {
+				continue
+			}
+			n++
+			for _, rs := range g.Returns {
+				rp, _ := g.Where(rs)
+				if g.Reachable(g.EdgeTarget(ce.E), rp, cut, isNS) {
+					bad = "a top-level stanza start can be forwarded without its namespace having been set to the stream's content namespace (a name already in the other stanza namespace is kept)"
+				}
+			}
+		}
+		c.r.Check(id, f, "stanza namespace forced to the stream's", "S: every top-level stanza start leaves with Name.Space == the stream's content namespace", f.Pos(), bad == "" && n > 0, bad)
 	}
 	// namespace defaulted only when empty
 	for _, w := range f.Writes() {
 		if sel, ok := ast.Unparen(w.LHS).(*ast.SelectorExpr); ok && sel.Sel.Name == "Space" && w.RHS != nil && f.Norm(w.RHS, nil) == "recv.ns" {
-			c.dom(id, f, w.Stmt, "default namespace", []string{"eq(*.Name.Space,\"\")", "eq(recv.depth,1)", "xmpp.isStanzaEmptySpace(*.Name)"})
+			c.dom(id, f, w.Stmt, "default namespace", []string{"eq(recv.depth,1)", "xmpp.isStanzaEmptySpace(*.Name)"})
 		}
 	}
 	// depth bookkeeping
@@ -321,6 +406,21 @@ func c05StanzaEncoder(c *cx) {
 			c.onlyFacts(id, f, w.Stmt, "depth--", []string{"istype(*;encoding/xml.EndElement)"})
 		default:
 			c.r.Check(id, f, "write to depth", "depth only changes by ++/--", w.Stmt.Pos(), false, "depth written with "+w.Tok.String())
+		}
+	}
+	// who may write the depth: nobody but EncodeToken (a "resync" elsewhere
+	// makes a nested stanza-named child look like a top-level stanza)
+	for _, of := range c.allFns() {
+		if of == f {
+			continue
+		}
+		for _, w := range of.FieldWrites("xmpp.stanzaEncoder.depth") {
+			c.r.Check(id, of, "write to stanzaEncoder.depth outside EncodeToken", "W: the element depth is maintained by EncodeToken alone", w.Stmt.Pos(), false, "depth written with "+w.Tok.String()+" in "+of.Short)
+		}
+		for _, cl := range of.WalkLits("xmpp.stanzaEncoder") {
+			if dv := structLitField(cl, "depth"); dv != nil {
+				c.r.Check(id, of, "stanzaEncoder literal sets depth", "W: a new stanzaEncoder starts at depth 0", cl.Pos(), false, "literal sets depth")
+			}
 		}
 	}
 	c.r.Check(id, f, "depth bookkeeping", "one depth++ in the start arm, one depth-- in the end arm", f.Pos(), inc == 1 && dec == 1, "found "+itoa(inc)+" increments and "+itoa(dec)+" decrements")
